@@ -1,7 +1,7 @@
 (* C01 — Reading returns exactly the content the file encodes.
 
    FULL STATEMENT (not yet proved as one theorem; see DESIGN.md section 7 C01):
-     Theorem read_correct : forall f, wf f -> rd_all (ser f) = Ok (meaning f).
+     read_correct : forall f, wf f -> rd_all (ser f) = Ok (meaning f).
    What is proved below are the layers of its refinement chain that are
    finished; the composed statement is therefore PARTIAL and the evidence file
    says so.  The executable model Model/Reader.v (rd_all) is tied to the
@@ -16,10 +16,14 @@
         segment; read_segment_chunks for the contiguous layout) and interleaved
         rows (read_interleaved; read_segment_chunks for the interleaved layout),
         in both byte orders and with arbitrary bytes following.
-   Still open for the composed statement: layers 2-4 (lexing the segment
-   sequence by position, the object state machine, chunk counts from
-   _calculate_chunks) and 6 (receivers / hierarchy); layer 1's metadata part is
-   in Proofs/TokensRoundtrip.v. *)
+     4 (part). _calculate_chunks on a whole number of chunks returns that number
+        and no override; composed with layer 5 for contiguous and interleaved
+        segments (contig_segment_roundtrip, interleaved_segment_roundtrip).
+   Still open for the composed statement: layers 2-3 (lexing the segment
+   sequence by position, the object state machine producing the sobj records
+   with so_dsize / so_nvals as assumed here), the truncated-last-segment case
+   of layer 4, and 6 (receivers / hierarchy); layer 1's metadata part is in
+   Proofs/TokensRoundtrip.v. *)
 From Coq Require Import List ZArith.
 Import ListNotations.
 From NpTdms Require Import Base.Bytes Base.Res Model.Tokens Model.SegState Model.Layout Model.Reader
@@ -46,6 +50,7 @@ Proof. vm_compute. reflexivity. Qed.
 Print Assumptions unsigned_field_roundtrip.
 Print Assumptions signed_field_roundtrip.
 Print Assumptions field_bytes_roundtrip.
+Print Assumptions c01_u32_example.
 
 (* ---- layer 5: raw data ------------------------------------------------------ *)
 
@@ -155,6 +160,45 @@ Theorem read_segment_chunks_interleaved_roundtrip : forall s nv rows rest,
     = Ok ([cols_of (data_objs (sg_objs s)) rows], rest).
 Proof. exact LayoutProofs.read_segment_chunks_interleaved_roundtrip. Qed.
 
+(* ---- layer 4 meets layer 5: chunk count from the data length ------------------- *)
+
+(* _calculate_chunks on a whole number of chunks: that number, no override *)
+Theorem calculate_chunks_exact : forall toc incomplete objs csize n,
+    chunk_size objs = Ok csize -> 0 < csize -> 0 <= n ->
+    calculate_chunks toc incomplete objs (n * csize) = Ok (n, None).
+Proof. exact LayoutProofs.calculate_chunks_exact. Qed.
+
+(* a contiguous segment whose (nchunks, override) come from _calculate_chunks on
+   the length of its raw data; [dsize_ok e o vs] : so_dsize o = blen (enc_obj e o vs) *)
+Theorem contig_segment_roundtrip : forall s css rest,
+    let e := toc_endian (sg_toc s) in
+    let dobjs := data_objs (sg_objs s) in
+    seg_layout s = Ok LContig ->
+    calculate_chunks (sg_toc s) (sg_incomplete s) (sg_objs s) (blen (enc_chunks e dobjs css))
+    = Ok (sg_nchunks s, sg_final s) ->
+    0 < zsum (map so_dsize dobjs) ->
+    NoDup (map so_path dobjs) ->
+    Forall (fun vss => Forall2 (fun o vs => vals_ok (so_nvals o) o vs) dobjs vss) css ->
+    Forall (Forall2 (dsize_ok e) dobjs) css ->
+    read_segment_chunks s (enc_chunks e dobjs css ++ rest)
+    = Ok (map (fun vss => chunk_of (combine dobjs vss)) css, rest).
+Proof. exact LayoutProofs.contig_segment_roundtrip. Qed.
+
+Theorem interleaved_segment_roundtrip : forall s nv m rows rest,
+    let e := toc_endian (sg_toc s) in
+    let dobjs := data_objs (sg_objs s) in
+    seg_layout s = Ok LInterleaved ->
+    calculate_chunks (sg_toc s) (sg_incomplete s) (sg_objs s) (blen (enc_rows e dobjs rows))
+    = Ok (sg_nchunks s, sg_final s) ->
+    dobjs <> [] -> 0 < nv -> 0 <= m ->
+    Forall (fun o => so_nvals o = nv /\ so_dsize o = so_nvals o * size_or0 o) dobjs ->
+    Forall (fun o => sized o <> None) dobjs ->
+    NoDup (map so_path dobjs) ->
+    Forall (row_ok dobjs) rows ->
+    Z.of_nat (length rows) = nv * m ->
+    read_segment_chunks s (enc_rows e dobjs rows ++ rest) = Ok ([cols_of dobjs rows], rest).
+Proof. exact LayoutProofs.interleaved_segment_roundtrip. Qed.
+
 (* concrete instances: big-endian int16 + string + complex128 in two contiguous
    chunks; big-endian interleaved int16 / complex64 / bool, three rows.  (The
    encoded bytes are spelled out in Proofs/LayoutProofs.v.) *)
@@ -205,6 +249,9 @@ Print Assumptions read_segment_chunks_contig_roundtrip.
 Print Assumptions read_interleaved_roundtrip.
 Print Assumptions cols_of_nth.
 Print Assumptions read_segment_chunks_interleaved_roundtrip.
+Print Assumptions calculate_chunks_exact.
+Print Assumptions contig_segment_roundtrip.
+Print Assumptions interleaved_segment_roundtrip.
 Print Assumptions c01_contig_example.
 Print Assumptions c01_interleaved_example.
 
